@@ -41,7 +41,7 @@ def encode(
     """
     marshalled = marshal(value=value, t=t)
     # Bytes-like types are their own wire format, see `typelib.codec`.
-    if inspection.isbytestype(value.__class__ if t is None else t):
+    if inspection.isbytestype(value.__class__ if t is None else inspection.unwrap(t)):
         return marshalled  # type: ignore[return-value]
     encoded = encoder(marshalled)
     return encoded
@@ -61,6 +61,6 @@ def decode(
         decoder: A callable that takes a bytes object and returns a Python value.
     """
     # Bytes-like types are their own wire format, see `typelib.codec`.
-    decoded = value if inspection.isbytestype(t) else decoder(value)
+    decoded = value if inspection.isbytestype(inspection.unwrap(t)) else decoder(value)
     unmarshalled = unmarshal(t=t, value=decoded)
     return unmarshalled
